@@ -259,6 +259,11 @@ func (d *Decoder) Write(p []byte) (n int, err error) {
 	}
 
 	for len(d.buf) > 0 {
+		// RFC 7541, sec 4.2 allows several dynamic table size updates in
+		// a row at the beginning of a header block (the encoder emits the
+		// smallest size followed by the final one), so a size update does
+		// not end the "beginning of the block".
+		isSizeUpdate := d.buf[0]&0xe0 == 0x20
 		err = d.parseHeaderFieldRepr()
 		if err == errNeedMore {
 			// Extra paranoia, making sure saveBuf won't
@@ -273,7 +278,9 @@ func (d *Decoder) Write(p []byte) (n int, err error) {
 			d.saveBuf.Write(d.buf)
 			return len(p), nil
 		}
-		d.firstField = false
+		if !isSizeUpdate {
+			d.firstField = false
+		}
 		if err != nil {
 			break
 		}
